@@ -256,12 +256,12 @@ func checkUtil(t *testing.T, c UtilCase) (v harness.Verdict) {
 
 	// The same SCT through a ctutil.LogInfo built from the key's SubjectPublicKeyInfo (no network is
 	// touched: the client inside is never used).
-	if o.p.key != nil && o.p.keyName == o.p.key.Name && o.p.key.SPKI != nil && c.Shape == "" {
+	if o.p.key != nil && o.p.keyName == o.p.key.Name && spkiOf(o.p.key) != nil && c.Shape == "" {
 		var li *ctutil.LogInfo
 		var lerr error
 		func() {
 			defer func() { pan = recover() }()
-			li, lerr = ctutil.NewLogInfo(&loglist3.Log{Description: "c05", Key: o.p.key.SPKI, URL: "log.example/c05"}, nil)
+			li, lerr = ctutil.NewLogInfo(&loglist3.Log{Description: "c05", Key: spkiOf(o.p.key), URL: "log.example/c05"}, nil)
 		}()
 		switch {
 		case pan != nil:
